@@ -177,8 +177,9 @@ class C12(PropBase):
             if evs["ok"] != evt["ok"] or rs != rt or evs["st_after"] != evt["st_after"]:
                 raise Violation(P, "state-depends-on-drain", "receive: subject ok=%s state=%s, twin ok=%s state=%s, results %s" % (
                     evs["ok"], evs["st_after"], evt["ok"], evt["st_after"], "equal" if rs == rt else "differ"))
-            if e and evt["ok"]:
-                # (a receive that fails may legitimately queue a notice; one that returns normally is not a send call)
+            if e:
+                # "... the encodings of exactly those messages whose send call succeeded": a receive is not a send call, whether
+                # it returns or raises (an independent reading of C12 agrees: seeded change C12-r4-1)
                 raise Violation(P, "receive-emitted", "receive() appended %d bytes to the outgoing stream" % len(e))
             self._conserve(st, "after receive")
         elif k == "drain":
